@@ -4058,6 +4058,270 @@ Proof.
   - eapply render_eq_proof; eauto.
 Qed.
 
+(* ================================================================== *)
+(* W. mRNA objects with hand-written codons                              *)
+
+Lemma translate_S : forall legacy f strict T c s,
+  translate legacy (S f) strict T c s = translate_decl legacy f strict T c s (required_vars s).
+Proof.
+  intros. unfold translate_decl, translate_core. cbn [translate].
+  change (missing_of legacy c s (required_vars s)) with (missing_vars legacy c s).
+  destruct (if strict then missing_vars legacy c s else []); [|reflexivity].
+  destruct (include_text legacy _) as [s3|e]; [|reflexivity].
+  destruct (pass_filtered legacy c s3) as [s4|e]; [|reflexivity].
+  destruct (pass_simple legacy _ c _) as [s7|e]; reflexivity.
+Qed.
+
+(* no codons given = the auto-detected ones *)
+Lemma render_impl_auto : forall strict T c s, render_impl strict T c s = render_impl_decl strict T c s [].
+Proof. intros. unfold render_impl, render_impl_decl. cbn [required_of]. apply translate_S. Qed.
+
+Lemma missing_of_spec : forall legacy c s req x, In x (missing_of legacy c s req) ->
+  In x req /\ lookup c x = None /\ (legacy = false -> occurs (key_pattern x) (outside_loops s) = true).
+Proof.
+  intros legacy c s req x H. unfold missing_of in H. apply filter_In in H. destruct H as [Hin H].
+  apply andb_prop in H. destruct H as [Hb Ho]. repeat split; auto.
+  - unfold bound in Hb. destruct (lookup c x); [discriminate|reflexivity].
+  - intros ->. exact Ho.
+Qed.
+
+Theorem codons_report_only_proof : forall strict T c s cs,
+  (exists x, render_impl_decl strict T c s cs = Err (EMissing x) /\ strict = true /\
+             In x (required_of cs s) /\ lookup c x = None /\
+             occurs (key_pattern x) (outside_loops s) = true) \/
+  (exists m, render_impl_decl strict T c s cs = add_missing m (render_passes strict T c s) /\
+             (strict = true -> m = []) /\
+             forall x, In x m -> In x (required_of cs s) /\ lookup c x = None /\
+                                 occurs (key_pattern x) (outside_loops s) = true).
+Proof.
+  intros strict T c s cs. unfold render_impl_decl, translate_decl, render_passes.
+  set (miss := missing_of false c s (required_of cs s)).
+  assert (Hm : forall x, In x miss -> In x (required_of cs s) /\ lookup c x = None /\
+                                      occurs (key_pattern x) (outside_loops s) = true).
+  { intros x Hx. destruct (missing_of_spec false c s _ x Hx) as (A & B & C). auto. }
+  destruct strict.
+  - destruct miss as [|x r] eqn:E.
+    + right. exists []. split; [reflexivity|]. split; [reflexivity|]. intros y [].
+    + left. exists x. split; [reflexivity|]. split; [reflexivity|]. apply Hm. left. reflexivity.
+  - right. exists miss. split; [reflexivity|]. split; [discriminate|]. exact Hm.
+Qed.
+
+Lemma add_missing_ok : forall m o txt w, add_missing m o = Ok txt w -> exists w0, o = Ok txt w0.
+Proof. intros m [t w0|e] txt w H; [|discriminate]. inversion H; subst. eauto. Qed.
+
+(* the text never depends on the codons: lenient mode renders the reference expansion whatever they declare *)
+Theorem render_eq_any_codons_proof : forall T c t txt miss cs,
+  ctx_ok c = true ->
+  forallb (fun nt => well_formed (snd nt)) T = true -> well_formed t = true ->
+  render_spec false T c t = SOk txt miss ->
+  exists w, render_impl_decl false (print_templates T) c (print t) cs = Ok txt w.
+Proof.
+  intros T c t txt miss cs Hc HT Hwf H.
+  destruct (render_eq_proof T c t txt miss Hc HT Hwf H) as (w & E).
+  rewrite render_impl_auto in E.
+  destruct (codons_report_only_proof false (print_templates T) c (print t) []) as [(x & _ & D & _)|(m0 & E0 & _)];
+    [discriminate|].
+  rewrite E0 in E. apply add_missing_ok in E. destruct E as (w0 & E).
+  destruct (codons_report_only_proof false (print_templates T) c (print t) cs) as [(x & _ & D & _)|(m & E1 & _)];
+    [discriminate|].
+  rewrite E1, E. cbn [add_missing]. eauto.
+Qed.
+
+Lemma in_matches_leaf : forall {M} (act : leaf -> option M) ls l m,
+  In l ls -> act l = Some m -> In (m, print_leaf l) (matches (flat_map (leaf_toks M act) ls)).
+Proof.
+  intros M act ls l m Hin Ha. rewrite matches_leaf_toks. apply in_flat_map. exists l. split; auto.
+  rewrite Ha. left. reflexivity.
+Qed.
+
+Lemma simple_warns : forall c ls x, wf_leaves ls -> In (LVar x) ls -> lookup c x = None ->
+  In (WUnbound x) (warn_simple c (print_leaves ls)).
+Proof.
+  intros c ls x H Hin L. unfold warn_simple.
+  rewrite (scan_leaves_nil (m_simple idz) act_var ls no_simple H agrees_simple).
+  apply in_flat_map. exists (x, print_leaf (LVar x)). split.
+  - apply (in_matches_leaf act_var ls (LVar x) x); auto.
+  - cbn [fst]. unfold bound. rewrite L. left. reflexivity.
+Qed.
+
+(* a plain variable that is still there after the blocks are expanded and is unbound: the passes raise
+   in strict mode and report "Unbound variable" otherwise *)
+Lemma passes_unbound : forall strict Ts c t x,
+  ctx_ok c = true -> well_formed t = true ->
+  In (LVar x) (blocks c t) -> lookup c x = None ->
+  match render_passes strict Ts c (print t) with
+  | Err _ => True
+  | Ok _ w => strict = false /\ In (WUnbound x) w
+  end.
+Proof.
+  intros strict Ts c t x Hc Hwf Hin L. unfold render_passes, translate_core.
+  set (render := fun n => match lookup Ts n with
+                          | Some sq => Some (translate false (length Ts) strict Ts c sq)
+                          | None => None
+                          end).
+  rewrite passes_blocks by auto. rewrite include_text_eq.
+  pose proof (blocks_wf c t Hc Hwf) as HB.
+  rewrite (scan_leaves_nil (m_include idz) act_inc (blocks c t) no_include HB agrees_include).
+  destruct (include_struct render (blocks c t) HB) as [(e & E)|(L3 & E & W3 & I3)].
+  - rewrite E. exact I.
+  - rewrite E. assert (H3 : In (LVar x) L3) by (apply I3; auto).
+    destruct (filtered_struct c L3 W3) as [(e & E4)|E4]; rewrite E4; [exact I|].
+    assert (W1 : wf_leaves (map (filt_leaf c) L3)) by (apply map_wf; auto using filt_leaf_sc).
+    rewrite pass_default_leaves by auto.
+    assert (W2 : wf_leaves (map (def_leaf c) (map (filt_leaf c) L3))) by (apply map_wf; auto using def_leaf_sc).
+    rewrite pass_optional_leaves by auto.
+    assert (W3' : wf_leaves (map (opt_leaf c) (map (def_leaf c) (map (filt_leaf c) L3))))
+      by (apply map_wf; auto using opt_leaf_sc).
+    assert (H6 : In (LVar x) (map (opt_leaf c) (map (def_leaf c) (map (filt_leaf c) L3)))).
+    { apply (in_map (opt_leaf c) _ (LVar x)). apply (in_map (def_leaf c) _ (LVar x)).
+      apply (in_map (filt_leaf c) _ (LVar x)). exact H3. }
+    destruct strict; cbn [negb andb].
+    + destruct (simple_raises c _ x W3' H6 L) as (e & E7). rewrite E7. exact I.
+    + destruct (pass_simple false false c _) as [s7|e]; [|exact I]. split; auto.
+      apply in_or_app. right. apply in_or_app. right. apply simple_warns; auto.
+Qed.
+
+Theorem rendered_unbound_reported_proof : forall Ts c t x cs,
+  ctx_ok c = true -> well_formed t = true ->
+  In (LVar x) (blocks c t) -> lookup c x = None ->
+  (forall txt w, render_impl_decl false Ts c (print t) cs = Ok txt w -> In (WUnbound x) w) /\
+  (exists e, render_impl_decl true Ts c (print t) cs = Err e).
+Proof.
+  intros Ts c t x cs Hc Hwf Hin L. split.
+  - intros txt w H.
+    destruct (codons_report_only_proof false Ts c (print t) cs) as [(y & _ & D & _)|(m & E & _)]; [discriminate|].
+    rewrite E in H. pose proof (passes_unbound false Ts c t x Hc Hwf Hin L) as P.
+    destruct (render_passes false Ts c (print t)) as [t0 w0|e]; [|discriminate].
+    cbn [add_missing] in H. inversion H; subst. apply in_or_app. right. tauto.
+  - destruct (codons_report_only_proof true Ts c (print t) cs) as [(y & E & _)|(m & E & _)]; [eauto|].
+    rewrite E. pose proof (passes_unbound true Ts c t x Hc Hwf Hin L) as P.
+    destruct (render_passes true Ts c (print t)) as [t0 w0|e]; [destruct P; discriminate|].
+    cbn [add_missing]. eauto.
+Qed.
+
+(* opacity does not depend on the codons either: the passes log the same *)
+Lemma core_log_empty : forall T c,
+  ctx_ok c = true -> templates_wf T ->
+  forall f strict t, well_formed t = true ->
+    snd (translate_core_t false f strict (print_templates T) c (print t)) = [].
+Proof.
+  intros T c Hc HT f strict t Hwf. unfold translate_core_t.
+  rewrite pass_if_t_uniform. cbn [text_of]. rewrite pass_if_nodes by auto.
+  destruct (if_nodes_wf c t Hwf) as [W1 F1].
+  destruct (pass_each_t_clean c (if_nodes c t) Hc W1 F1) as [E1 E2].
+  destruct (pass_each_t false c (taint FromTemplate (print (if_nodes c t)))) as [r2 l2].
+  cbn [fst snd] in *. subst l2.
+  pose proof (text_of_Inv r2 E2) as I2.
+  set (render := fun n => match lookup (print_templates T) n with
+                          | Some sq => Some (translate_t false f strict (print_templates T) c sq)
+                          | None => None
+                          end).
+  assert (Hr : forall n, match render n with Some (_, lg) => lg = [] | None => True end).
+  { intros n. unfold render. rewrite lookup_print_templates.
+    destruct (lookup T n) as [t'|] eqn:L; cbn [option_map]; [|exact I].
+    pose proof (taint_log_empty T c Hc HT f strict t' (lookup_wf T n t' HT L)) as Hl.
+    destruct (translate_t false f strict (print_templates T) c (print t')). exact Hl. }
+  destruct (include_text_t_clean render (text_of r2) Hr I2) as [E3 E4].
+  destruct (include_text_t false (resolve_includes_t render (text_of r2))) as [r3 l3].
+  cbn [fst snd] in *. subst l3.
+  destruct r3 as [s3|e]; [|reflexivity].
+  pose proof (E4 s3 eq_refl) as I3.
+  destruct (pass_filtered_t_clean c s3 I3) as [E5 E6].
+  destruct (pass_filtered_t false c s3) as [r4 l4]. cbn [fst snd] in *. subst l4.
+  destruct r4 as [s4|e]; [|reflexivity].
+  pose proof (E6 s4 eq_refl) as I4.
+  destruct (pass_default_t_clean c s4 I4) as [E7 I5].
+  destruct (pass_default_t false c s4) as [s5 l5]. cbn [fst snd] in *. subst l5.
+  destruct (pass_optional_t_clean c s5 I5) as [E8 E9].
+  destruct (pass_optional_t false c s5) as [r6 l6]. cbn [fst snd] in *. subst l6.
+  pose proof (text_of_Inv r6 E9) as I6.
+  destruct (pass_simple_t_clean (strict && negb false) c (text_of r6) I6) as [E10 _].
+  destruct (pass_simple_t false (strict && negb false) c (text_of r6)) as [r7 l7].
+  cbn [fst snd] in *. subst l7.
+  destruct r7; reflexivity.
+Qed.
+
+Theorem opacity_any_codons_proof : forall strict T c t cs,
+  ctx_ok c = true ->
+  forallb (fun nt => well_formed (snd nt)) T = true -> well_formed t = true ->
+  snd (render_taint_decl strict (print_templates T) c (print t) cs) = [].
+Proof.
+  intros strict T c t cs Hc HT Hwf. unfold render_taint_decl, translate_decl_t.
+  destruct (if strict then missing_of false c (print t) (required_of cs (print t)) else []); [|reflexivity].
+  pose proof (core_log_empty T c Hc (templates_wf_b T HT) (length (print_templates T)) strict t Hwf) as H.
+  destruct (translate_core_t false (length (print_templates T)) strict (print_templates T) c (print t)).
+  exact H.
+Qed.
+
+(* the passes alone render the reference expansion (both modes) whenever it is defined: no condition on the
+   plain variables of the template itself - only the registered templates keep their auto-detected check *)
+Lemma render_eq_core : forall strict T c,
+  ctx_ok c = true -> templates_wf T ->
+  (strict = true -> Forall (fun nt => out_bound c (snd nt)) T) ->
+  forall f t txt miss,
+    well_formed t = true ->
+    render_tpl (S f) strict T c t = SOk txt miss ->
+    exists w, translate_core false f strict (print_templates T) c (print t) = Ok txt w.
+Proof.
+  intros strict T c Hc HT HTb f t txt miss Hwf H.
+  cbn [render_tpl] in H. rewrite render_nodes_blocks in H.
+  destruct (blocks_rel c t Hc Hwf) as [Erel Hgood]. rewrite <- Erel in H.
+  set (incf := fun n => match lookup T n with
+                        | Some t' => render_tpl f strict T c t'
+                        | None => SOk (unknown_marker n) []
+                        end) in H.
+  set (render := fun n => match lookup (print_templates T) n with
+                          | Some sq => Some (translate false f strict (print_templates T) c sq)
+                          | None => None
+                          end).
+  assert (Hrel : forall n tn mn, word n = true -> incf n = SOk tn mn ->
+            exists s, include_cb false (n, render n) [] = inl s /\ nobrace s = true /\ unshield s = tn).
+  { intros n tn mn Hn Hi. unfold incf in Hi. unfold include_cb, render. cbn [fst snd].
+    rewrite lookup_print_templates. destruct (lookup T n) as [t'|] eqn:L; cbn [option_map].
+    - assert (Hb' : strict = true -> out_bound c t').
+      { intros Hs. specialize (HTb Hs). clear - HTb L.
+        induction T as [|[k u] T IHT]; cbn in L; [discriminate|]. inversion HTb; subst.
+        destruct (str_eqb k n); [inversion L; subst; auto|auto]. }
+      destruct (render_eq_fuel strict T c Hc HT HTb f t' tn mn (lookup_wf T n t' HT L) Hb' Hi) as (w & E).
+      rewrite E. exists (shield tn). cbn [sh]. repeat split; auto using shield_nobrace.
+      apply unshield_shield. eapply translate_nosent; eauto.
+    - inversion Hi; subst. exists (unknown_marker n). repeat split; auto using marker_nobrace.
+      apply unshield_id. apply marker_nosent. auto. }
+  destruct (include_leaves strict c incf render Hc Hrel (blocks c t) txt miss Hgood H)
+    as (L3 & E3 & W3 & N3 & F3 & P3).
+  unfold translate_core.
+  rewrite passes_blocks by auto.
+  fold render. rewrite include_text_eq.
+  rewrite (scan_leaves_nil (m_include idz) act_inc (blocks c t) no_include (blocks_wf c t Hc Hwf) agrees_include).
+  rewrite E3.
+  destruct (tail_passes strict c L3 W3 F3) as [T1 T2]. rewrite T1.
+  cbn [negb]. rewrite andb_true_r. rewrite T2.
+  cbn [unsh]. rewrite P3. eexists. reflexivity.
+Qed.
+
+(* strict mode with hand-written codons: whenever every name the codons declare required, that is written
+   outside {{#each}} bodies, is bound (the up-front check passes), the rendering is exactly the reference
+   expansion of strict mode *)
+Theorem strict_any_codons_proof : forall T c t txt miss cs,
+  ctx_ok c = true ->
+  forallb (fun nt => well_formed (snd nt)) T = true -> well_formed t = true ->
+  Forall (fun nt => out_bound c (snd nt)) T ->
+  (forall x, In x (required_of cs (print t)) -> occurs (key_pattern x) (outside_loops (print t)) = true ->
+             lookup c x <> None) ->
+  render_spec true T c t = SOk txt miss ->
+  exists w, render_impl_decl true (print_templates T) c (print t) cs = Ok txt w.
+Proof.
+  intros T c t txt miss cs Hc HT Hwf HTb Hreq H. unfold render_spec in H.
+  destruct (codons_report_only_proof true (print_templates T) c (print t) cs)
+    as [(x & _ & _ & A & B & C)|(m & E & Hm & _)].
+  - exfalso. exact (Hreq x A C B).
+  - rewrite E, (Hm eq_refl). unfold render_passes.
+    assert (El : length (print_templates T) = length T) by (unfold print_templates; apply map_length).
+    rewrite El.
+    destruct (render_eq_core true T c Hc (templates_wf_b T HT) (fun _ => HTb) (length T) t txt miss Hwf H) as (w & Ew).
+    rewrite Ew. cbn [add_missing map app]. eauto.
+Qed.
+
 End WithFilterTable.
 
 (* ================================================================== *)
